@@ -373,8 +373,12 @@ func range_(tokens []Token) ([2]int, error) {
 		for i, token := range tokens {
 			switch token := token.(type) {
 			case pa.Ident:
-				if token.Value == "infinite" {
-					values[i] = math.MaxInt32
+				if token.Value == "infinite" { // no lower bound / no upper bound
+					if i == 0 {
+						values[i] = math.MinInt32
+					} else {
+						values[i] = math.MaxInt32
+					}
 					continue
 				}
 			case pa.Number:
